@@ -94,6 +94,8 @@ class Lowering:
         else:
             v = z3.Real(f"{at.kind}!{at.id}")
         self.z[at.id] = v
+        if at.kind == "var" and at.pos:
+            self.side.append(v > 0)     # a variable declared positive is positive in every query
         if at.kind == "inv":
             self.side.append(self.p(at.args[0]) * v == 1)
         elif at.kind == "lam":
@@ -112,9 +114,18 @@ class Lowering:
         def larg(a):
             return _rv(a.args[0]) if a.kind == "lam" else self.p(a.args[0])
 
+        def escales(a):
+            out = [(None, None)]
+            for f, lf in sorted(a.scales or (), key=lambda t: t[0].key()):
+                out.append((self.p(f), self.p(lf)))
+            return out
+
         for a in E:
             e, x = self.z[a.id], self.p(a.args[0])
             self.side += [e > 0, e >= 1 + x, (x > 0) == (e > 1), (x < 0) == (e < 1)]
+            for f, lf in escales(a)[1:]:
+                # the exponential that was asked for is f*e = exp(x + lf)
+                self.side += [(x + lf > 0) == (f * e > 1), (x + lf < 0) == (f * e < 1)]
         for a in L:
             if a.kind == "lam":
                 continue
@@ -124,18 +135,66 @@ class Lowering:
             if len(E) <= PAIR_CAP:
                 for a, b in itertools.combinations(E, 2):
                     ea, eb, xa, xb = self.z[a.id], self.z[b.id], self.p(a.args[0]), self.p(b.args[0])
-                    self.side += [(xa < xb) == (ea < eb), (xa == xb) == (ea == eb)]
+                    for fa, la in escales(a):
+                        for fb, lb in escales(b):
+                            XA, EA = (xa, ea) if fa is None else (xa + la, fa * ea)
+                            XB, EB = (xb, eb) if fb is None else (xb + lb, fb * eb)
+                            self.side += [(XA < XB) == (EA < EB), (XA == XB) == (EA == EB)]
             if len(L) <= PAIR_CAP:
+                def scales(a):
+                    return sorted({Fraction(1)} | (a.scales or set()))
                 for a, b in itertools.combinations(L, 2):
                     if a.kind == "lam" and b.kind == "lam":
                         continue
                     la, lb, xa, xb = self.z[a.id], self.z[b.id], larg(a), larg(b)
-                    self.side += [(xa < xb) == (la < lb), (xa == xb) == (la == lb)]
+                    for sa in scales(a):
+                        for sb in scales(b):
+                            c = sa / sb          # the logarithms that were asked for are ln(sa*xa), ln(sb*xb)
+                            if c == 1:
+                                self.side += [(xa < xb) == (la < lb), (xa == xb) == (la == lb)]
+                            else:
+                                lc = self.p(T.log_const(c))
+                                self.side += [(_rv(c) * xa < xb) == (la + lc < lb), (_rv(c) * xa == xb) == (la + lc == lb)]
+                for a in L:
+                    for sa in scales(a):
+                        if sa != 1 and a.kind == "L":
+                            la, xa, lc = self.z[a.id], larg(a), self.p(T.log_const(sa))
+                            self.side += [(_rv(sa) * xa > 1) == (la + lc > 0), (_rv(sa) * xa < 1) == (la + lc < 0)]
             if len(E) * len(L) <= PAIR_CAP * PAIR_CAP:
                 for a in E:
                     for b in L:
                         e, x, l, y = self.z[a.id], self.p(a.args[0]), self.z[b.id], larg(b)
                         self.side += [(x < l) == (e < y), (x == l) == (e == y)]
+                        if b.kind == "lam":
+                            self.side += [(x < -l) == (e * y < 1), (x == -l) == (e * y == 1)]
+        # common differences: when the same difference d = arg_a - arg_b occurs for several pairs, one new
+        # atom E(d) is introduced and  E(a) = E(b) * E(d)  is stated for each of them (true of exp)
+        if 2 <= len(E) <= PAIR_CAP:
+            groups = {}
+            for a, b in itertools.permutations(E, 2):
+                d = T.p_sub(a.args[0], b.args[0])
+                if d.is_const():
+                    continue
+                m0 = min(d.terms)
+                if d.terms[m0] < 0:
+                    continue          # keep one orientation
+                groups.setdefault(d, []).append((a, b))
+            new = 0
+            for d, prs in sorted(groups.items(), key=lambda kv: -len(kv[1])):
+                if len(prs) < 2 or new >= 6:
+                    break
+                r = T.mkE(d)
+                for i in sorted(r.atoms()):
+                    if i not in self.z:
+                        self._late(Atom._all[i])
+                        at = Atom._all[i]
+                        if at.kind == "E":
+                            e_, x_ = self.z[at.id], self.p(at.args[0])
+                            self.side += [e_ > 0, e_ >= 1 + x_, (x_ > 0) == (e_ > 1), (x_ < 0) == (e_ < 1)]
+                            new += 1
+                rp = self.p(r)
+                for a, b in prs:
+                    self.side.append(self.z[a.id] == self.z[b.id] * rp)
         # product law on differences that are already expressible:  E(a) = E(b) * E(a-b)
         if len(E) <= PAIR_CAP:
             known = set(self.z)
